@@ -805,6 +805,22 @@ func vsNewPC(t *testing.T, cfg string) *PeerConnection {
 		}, RTPCodecTypeAudio); err != nil {
 			t.Fatal(err)
 		}
+	case "ptcollide": // the application registers a second codec under a payload type that is taken (C10): refused or not,
+		// what is generated must stay consistent
+		if err := me.RegisterDefaultCodecs(); err != nil {
+			t.Fatal(err)
+		}
+		for _, clock := range []uint32{8000, 48000, 16000} {
+			_ = me.RegisterCodec(RTPCodecParameters{
+				RTPCodecCapability: RTPCodecCapability{MimeType: "audio/telephone-event", ClockRate: clock}, PayloadType: 126,
+			}, RTPCodecTypeAudio)
+		}
+		_ = me.RegisterCodec(RTPCodecParameters{
+			RTPCodecCapability: RTPCodecCapability{MimeType: MimeTypeVP8, ClockRate: 90000, SDPFmtpLine: "x=1"}, PayloadType: 96,
+		}, RTPCodecTypeVideo)
+		_ = me.RegisterCodec(RTPCodecParameters{
+			RTPCodecCapability: RTPCodecCapability{MimeType: MimeTypeVP8, ClockRate: 45000}, PayloadType: 96,
+		}, RTPCodecTypeVideo)
 	case "manyext": // more header extensions than one-byte ids (C10)
 		if err := me.RegisterDefaultCodecs(); err != nil {
 			t.Fatal(err)
